@@ -27,9 +27,13 @@ Fixpoint utrace_from (eps10 : Qc) (i : nat) (cols : list ucol) : qi :=
   | c :: r => qiadd (col_entry i c (vmul2 (mask_f eps10 (u_w c) (u_fw c)) (u_c c))) (utrace_from eps10 (S i) r)
   end.
 Definition utrace (eps10 : Qc) (cols : list ucol) : qi := utrace_from eps10 0 cols.
-Record ucase := mkucase { uc_eps10 : Qc; uc_cols : list ucol; uc_t : qi; uc_tol : Qc }.
+(* apply_unary(f, Transpose(B)) = Transpose(f(B)),  apply_unary(f, Adjoint(B)) = Adjoint(f(B))  (unary.py), and the trace of a
+   Transpose is the trace, the trace of an Adjoint its conjugate: uc_adj = the operator is B behind an odd number of Adjoint wrappers,
+   the oracle data are those of the innermost operator B *)
+Record ucase := mkucase { uc_eps10 : Qc; uc_adj : bool; uc_cols : list ucol; uc_t : qi; uc_tol : Qc }.
 Definition ucheck (c : ucase) : bool :=
-  let t := utrace (uc_eps10 c) (uc_cols c) in
+  let t0 := utrace (uc_eps10 c) (uc_cols c) in
+  let t := if uc_adj c then qiconj t0 else t0 in
   let sc := (if qcleb 1 (qinorm2 (uc_t c)) then qinorm2 (uc_t c) else 1)%Qc in
   qcleb (qinorm2 (qisub t (uc_t c))) (uc_tol c * uc_tol c * sc)%Qc.
 (* nothing is dropped when every Ritz value is above the cut-off *)
